@@ -610,7 +610,8 @@ object_t *clone_object (const char *str1, int num_arg) {
       if (current_object != master_ob)
         error ("*Attempt to create object without effective UID.");
     }
-  num_objects_this_thread = 0;
+  /* (the load-depth counter is balanced by load_object() itself and put back by error contexts: it must not be
+   * cleared here, a clone made from inside create() of an object that is being loaded is part of that load) */
   ob = find_or_load_object (str1);
   /* loading the blueprint ran its create(): the caller may have lost its euid meanwhile (reload_object) */
   if (current_object && current_object != master_ob && current_object->euid == 0)
